@@ -211,7 +211,7 @@ func (d *orcDriver) genUpd(kind string) (u orcUpd, ok bool) {
 			return u, false
 		}
 		f := s.Feeders[cands[d.rng.Intn(len(cands))]]
-		nf := orcFeeder{Token: f.Token, Rule: f.Rule, StartRound: f.StartRound + (f.End-f.StartBase)/f.Interval + 1,
+		nf := orcFeeder{Token: f.Token, Rule: f.Rule, StartRound: f.StartRound + orcRoundsOpened(f), // the rounds it really opened (dom_oracle_handover.go)
 			StartBase: h + 1 + uint64(d.rng.Intn(3)), Interval: uint64(2*s.MaxNonce) + uint64(d.rng.Intn(3))}
 		u.addFeeder(nf)
 		u.apply = func(s *orcSpec) { s.Feeders = append(s.Feeders, nf) }
@@ -263,7 +263,7 @@ func (d *orcDriver) genUpd(kind string) (u orcUpd, ok bool) {
 			}
 		}
 	default:
-		return u, false
+		return d.genUpdEdge(kind) // boundary kinds: dom_oracle_handover.go
 	}
 	return u, true
 }
